@@ -342,11 +342,12 @@ func TestVerifBigIntBridge(t *testing.T) {
 		}
 		check(what, got, w)
 	}
-	// failed decodes: math/big leaves an undefined but well-formed value in the receiver; the BigInt must mirror it
+	// decodes, failed and successful (the JSON literal null is a no-op for UnmarshalJSON only): math/big leaves an undefined
+	// but well-formed value in the receiver after a failure; the BigInt must mirror it
 	// (the partial digits were written into the BigInt's own inline words through the header)
 	for _, zs := range pool {
 		for rep := 0; rep < 2; rep++ {
-			for _, txt := range []string{"0z", "12x", "1e5", "-7q", "", "-", "99999999999999999999999999999999999999999z", "0x1g"} {
+			for _, txt := range []string{"0z", "12x", "1e5", "-7q", "", "-", "99999999999999999999999999999999999999999z", "0x1g", "null", "nul", "123", "-45", "+5", "\"12\"", " 7", "340282366920938463463374607431768211456", "-0"} {
 				z, w := mk(zs, rep == 1), mb(zs)
 				e1, e2 := z.UnmarshalText([]byte(txt)), w.UnmarshalText([]byte(txt))
 				if (e1 == nil) != (e2 == nil) {
